@@ -408,6 +408,7 @@ func gen(o *kit.Out, r *kit.Rand, tier string) {
 	thorough := tier == "thorough"
 
 	// (i-a) int64 boundary lattice for last / used / maxGas
+	ratios := []int64{0, 1, 50, 70, 100}
 	lat := []int64{minI64, -1, 0, 1, 2, 100, 1<<31 - 1, 3000000000, 1 << 62, maxI64/100 + 1, maxI64/2 + 1, maxI64 - 1, maxI64}
 	lr := r.Fork()
 	extra := 2
@@ -426,12 +427,17 @@ func gen(o *kit.Out, r *kit.Rand, tier string) {
 		}
 	}
 	lat = uniq(lat)
-	ratios := []int64{0, 1, 50, 70, 100}
+	// quick: ratios 0/70/100 (1 and 50 are covered by the overflow-edge and small tables);
+	// thorough: the derived seeds run the same fixed lattice, so each takes 70 plus two seed-chosen ratios
+	latRatios := []int64{0, 70, 100}
+	if thorough {
+		latRatios = uniq([]int64{70, kit.Pick(lr, ratios), int64(lr.Range(1, 100))})
+	}
 	e := &emitter{o: o, name: "lattice", per: 64}
 	for _, last := range lat {
 		for _, maxGas := range lat {
 			for _, used := range lat {
-				for _, ratio := range ratios {
+				for _, ratio := range latRatios {
 					for _, c := range []int64{1, 10} {
 						for _, init := range []int64{0, 1, maxI64} {
 							if !thorough && c == 10 && init != 1 {
